@@ -1160,7 +1160,7 @@ Definition open_inst : mtvrp_inst :=
 Theorem mtvrp_checker_open_depot_deadline_refuted :
   exists (i : mtvrp_inst) (acts : list nat),
     mtvrp_wf i /\ data_ok exact i = true /\
-    adm (E:=MTVRP exact false) i acts = true /\ done (MTVRP exact false) i (run (E:=MTVRP exact false) i acts) = true /\
+    adm (E:=MTVRP exact true) i acts = true /\ done (MTVRP exact true) i (run (E:=MTVRP exact true) i acts) = true /\
     mtvrp_feasibleb i 0 acts = true /\ mtvrp_checker exact i acts = false.
 Proof. exists open_inst, [1; 0]%nat. repeat (split; [vm_compute; reflexivity|]). vm_compute; reflexivity. Qed.
 
